@@ -7,8 +7,11 @@ import BfeVerif.C04.Model
            steps    = comma list of  `b` (Balance)  `B` (Balance, then IncConnNum on the chosen backend)
                       `c<i>=<n>` (connNum := n)  `a<i>=<0|1>` (SetAvail)  `w<i>=<n>` (raw weight := n)
   result = per `b`/`B` step `<chosen index>/<candidate indices joined by .>` or `E`, joined by `,` (`-` if none)
-  S = WlcSmooth (exact prediction), R = WlcSimple (`rand.Int()` is read back from the implementation's
-  choice: the model result repeats it iff it lies in the model's candidate list).
+                      `u<i>:<c>/.../+:<c>` (`Update`: survivors by position with configured weight c, `+` = a new backend)
+           R-mode tokens carry a third field when there are >= 2 candidates: the value `rand.Int()` returned inside
+           `randomBalance` (math/rand is seeded by the harness, which replays the same source); the whole result ends
+           with `;cur=<current of every backend, joined by .>`
+  S = WlcSmooth, R = WlcSimple: both predicted exactly (R: chosen = candidates[n % len]).
 -/
 namespace BfeVerif.C04
 open BfeVerif.Proto
@@ -47,16 +50,25 @@ def parseSet (s : String) : Option (Nat × Int) :=
     | _, _ => none
   | _ => none
 
+def parseTok2 (i cs : String) : Option (Nat × List Nat) :=
+  match i.toNat? with
+  | some i =>
+    if cs == "" then some (i, []) else
+    match (cs.splitOn ".").mapM String.toNat? with
+    | some l => some (i, l)
+    | none => none
+  | none => none
+
 def parseTok (t : String) : Option (Nat × List Nat) :=
   match t.splitOn "/" with
-  | [i, cs] =>
-    match i.toNat? with
-    | some i =>
-      if cs == "" then some (i, []) else
-      match (cs.splitOn ".").mapM String.toNat? with
-      | some l => some (i, l)
-      | none => none
-    | none => none
+  | [i, cs] => parseTok2 i cs
+  | [i, cs, _] => parseTok2 i cs
+  | _ => none
+
+/-- the scripted value of `rand.Int()` (third field), if a draw took place -/
+def drawOf (t : String) : Option Nat :=
+  match t.splitOn "/" with
+  | [_, _, n] => n.toNat?
   | _ => none
 
 def balanceStep (m : Mode) (inc : Bool) (st : St) (implTok : String) : St :=
@@ -67,6 +79,7 @@ def balanceStep (m : Mode) (inc : Bool) (st : St) (implTok : String) : St :=
   let st := if nElig ≥ 2 then addTag st "nt" else st
   let st := addTag st (if nElig = 0 then "none-elig" else if mins.length ≥ 2 then "tie" else "single")
   let st := if nElig < bs.length then addTag st "inelig-present" else st
+  let st := if bs.any (fun b => decide (b.conn ≥ 65536 ∨ b.w ≥ 65536)) then addTag st "huge" else st
   -- spec oracle on the implementation's answer
   let st :=
     if implTok == "E" then (if anyElig bs then fail st "spurious-error" else st)
@@ -79,16 +92,26 @@ def balanceStep (m : Mode) (inc : Bool) (st : St) (implTok : String) : St :=
         else st
   -- model
   let n : Nat :=
-    match m, cands, parseTok implTok with
-    | .randomTie, some cs, some (i, _) => cs.idxOf i
-    | _, _, _ => 0
+    -- WlcSimple: the scripted draw is used when it explains the implementation's choice (`candidates[n % len]`, the
+    -- code as written); a different but legitimate way of drawing is followed as long as it stays inside the
+    -- candidates (uniformity is then judged by reachability / frequency over long runs, see `run`)
+    match m, cands, drawOf implTok, parseTok implTok with
+    | .randomTie, some cs, some n, some (i, _) => if cs[n % cs.length]? == some i then n else cs.idxOf i
+    | .randomTie, some cs, none, some (i, _) => cs.idxOf i
+    | _, _, _, _ => 0
   let r := wlc m bs n
   let tok := match r.1, cands with
-    | some i, some cs => toString i ++ "/" ++ dots cs
+    | some i, some cs => toString i ++ "/" ++ dots cs ++
+        (match m, drawOf implTok with
+         | .randomTie, some d => if cs.length ≥ 2 then "/" ++ toString d else ""
+         | _, _ => "")
     | _, _ => "E"
   let bs' := match r.1 with
     | some i => if inc then setAt r.2 i (fun b => { b with conn := b.conn + 1 }) else r.2
     | none => r.2
+  let st := match m, cands, drawOf implTok, parseTok implTok with
+    | .randomTie, some cs, some d, some (i, _) => addTag st (if cs[d % cs.length]? == some i then "nth-exact" else "nth-deviates")
+    | _, _, _, _ => st
   { st with bs := bs', out := tok :: st.out }
 
 partial def steps (m : Mode) (st : St) (ss : List String) (impl : List String) : St :=
@@ -100,6 +123,17 @@ partial def steps (m : Mode) (st : St) (ss : List String) (impl : List String) :
         | [] => ("", [])
         | t :: ts => (t, ts)
       steps m (balanceStep m (s == "B") st tok) rest impl'
+    else if s.startsWith "u" then
+      let parts := ((s.drop 1).toString).splitOn "/"
+      let parsed := parts.mapM fun t => match t.splitOn ":" with
+        | [i, c] => c.toInt?.bind fun c => if i == "+" then some (none, c) else i.toNat?.map fun i => (some i, c)
+        | _ => none
+      match parsed with
+      | none => { st with bad := true }
+      | some ps =>
+        let keep := ps.filterMap fun p => p.1.map fun i => (i, p.2)
+        let new := ps.filterMap fun p => if p.1.isNone then some p.2 else none
+        steps m (addTag { st with bs := update st.bs keep new } "update") rest impl
     else
       let k := (s.take 1).toString
       match parseSet (s.drop 1).toString with
@@ -112,17 +146,31 @@ partial def steps (m : Mode) (st : St) (ss : List String) (impl : List String) :
         steps m { st with bs := bs } rest impl
 
 def run (op impl : String) : Ans :=
+  if impl == "bad-op" then { model := "bad-op", verdict := "skip" } else
   match op.splitOn " " with
   | ["wlc", m, bss, ss] =>
     match parseBs bss with
     | none => { model := "bad-op", verdict := "skip" }
     | some bs =>
       let mode := if m == "S" then Mode.smoothTie else Mode.randomTie
-      let implToks := if impl == "-" then [] else impl.splitOn ","
+      let implMain := (impl.splitOn ";").getD 0 ""
+      let implToks := if implMain == "-" then [] else implMain.splitOn ","
       let st := steps mode { bs := bs } (ss.splitOn ",") implToks
       if st.bad then { model := "bad-op", verdict := "skip" } else
       let out := if st.out.isEmpty then "-" else ",".intercalate st.out.reverse
-      { model := out, verdict := st.verdict, tags := [m] ++ st.tags }
+      -- WlcSimple, many calls in ONE state (only `b` steps): every minimiser must be reached, and about equally often
+      -- (math/rand is seeded, so this is a deterministic statement about the code, not a statistical test at run time)
+      let chosen := implToks.filterMap fun t => (parseTok t).map (·.1)
+      let mins := minimisers st.bs
+      let k := mins.length
+      let longRun := m == "R" && (ss.splitOn ",").all (· == "b") && decide (k ≥ 2) && decide (chosen.length ≥ 40 * k)
+      let counts := mins.map fun i => (chosen.filter (· == i)).length
+      let st := if longRun ∧ counts.any (· == 0) then fail st "random-never-reaches-a-minimiser"
+        else if longRun ∧ counts.any (fun c => decide (3 * k * c < chosen.length ∨ k * c > 3 * chosen.length)) then fail st "random-not-uniform"
+        else st
+      let tags := if longRun then ["R-long-run"] else []
+      { model := out ++ ";cur=" ++ ".".intercalate (st.bs.map fun b => toString b.cur)
+        verdict := st.verdict, tags := [m] ++ tags ++ st.tags }
   | _ => { model := "bad-op", verdict := "skip" }
 
 end BfeVerif.C04
